@@ -5,11 +5,18 @@ SPEC = {
     "tests": [
         {"name": "TestHTTPSamples", "quick": 320, "thorough": 24000, "shards_quick": 8, "shards_thorough": 16, "timeout": 3000},
         {"name": "TestGRPCCodes", "quick": 48, "thorough": 3200, "shards_quick": 4, "shards_thorough": 16, "timeout": 3000},
+        {"name": "TestGRPCScenarioTags", "quick": 160, "thorough": 8000, "shards_quick": 4, "shards_thorough": 16, "timeout": 3000},
         {"name": "TestScenarioSamples", "quick": 400, "thorough": 24000, "shards_quick": 8, "shards_thorough": 16, "timeout": 3000},
         # one process at a time is enough: each case already runs 2-16 goroutines flat out
         {"name": "TestIDsUnique", "quick": 60, "thorough": 3000, "shards_quick": 2, "shards_thorough": 4, "timeout": 3000},
     ],
-    "rule": ("TestScenarioSamples: generated http scenarios (1-4 steps with multiplicities, postprocessors none / assert status / assert "
+    "rule": ("TestGRPCScenarioTags: generated grpc/scenario descriptions with 2-4 weighted scenarios whose request lists (1-3 steps "
+             "with multiplicities) draw on the same 1-4 `calls:` (tags may coincide, some calls answered with a non-OK status) plus one "
+             "marker call of their own at a random position; ammo limit 1-3 rounds of the weights, 1-3 instances, real grpc/scenario gun "
+             "and provider, real phout. The recording server tells what ran: each call carries its name in metadata, the marker calls "
+             "count the invocations of each scenario, and with one instance the call sequence decomposes uniquely into scenario "
+             "invocations; samples must be, in order (one instance) or as a multiset (several), exactly {<scenario>.<call tag>, documented "
+             "code} of every executed step; non-trivial = two or more invoked scenarios list the same call. TestScenarioSamples: generated http scenarios (1-4 steps with multiplicities, postprocessors none / assert status / assert "
              "body / var/jsonpath before or after an assert) shot 1-5 times by one instance; the scripted target makes one request of "
              "some invocations carry a status or a body that the step's assertion rejects; the phout sample stream must be exactly one "
              "sample per executed step, tagged <scenario>.<step name>, completed steps with the status received, the failed step "
@@ -26,16 +33,22 @@ SPEC = {
     "floors": {"TestHTTPSamples/status_3xx": 0.1, "TestHTTPSamples/status_4xx": 0.1, "TestHTTPSamples/status_5xx": 0.1,
                "TestHTTPSamples/fail_reset": 0.1, "TestHTTPSamples/fail_timeout": 0.1, "TestHTTPSamples/fail_short_body": 0.1,
                "TestHTTPSamples/fail_refused": 0.04, "TestHTTPSamples/auto_tag": 0.3, "TestHTTPSamples/auto_tag_appended": 0.1,
-               "TestHTTPSamples/instances_ge_2": 0.5, "TestGRPCCodes/shared_client": 0.2, "TestGRPCCodes/out_of_range_codes": 0.2},
+               "TestHTTPSamples/instances_ge_2": 0.5, "TestHTTPSamples/uri_without_path": 0.4,
+               "TestHTTPSamples/auto_tag_of_uri_without_path_untagged": 0.15, "TestHTTPSamples/uri_without_path_abs": 0.1,
+               "TestHTTPSamples/uri_without_path_query": 0.1, "TestHTTPSamples/uri_without_path_abs_query": 0.1,
+               "TestGRPCScenarioTags/one_instance_reruns_a_call_in_another_scenario": 0.3,
+               "TestGRPCScenarioTags/call_shared_by_invoked_scenarios": 0.6, "TestGRPCScenarioTags/three_or_more_scenarios_invoked": 0.3,
+               "TestGRPCScenarioTags/instances_ge_2_with_shared_call": 0.15, "TestGRPCScenarioTags/step_with_non_ok_status": 0.2, "TestGRPCCodes/shared_client": 0.2, "TestGRPCCodes/out_of_range_codes": 0.2},
     "exhaustive_note": "gRPC status codes 0..16 are all exercised in every TestGRPCCodes case (the sub-space of defined codes is enumerated completely)",
     "manifest": {
         "technique": "model-based property testing (rapid) through the real guns and the real phout aggregator against scripted recording targets; documentation-transcribed table oracle for gRPC codes",
         "text": ("Samples are read where users read them (phout lines). HTTP: exactly one sample per fired request; proto code = status "
                  "received else 0; net code 0 iff a response was completely received; tag = ammo tag / auto-tag of the first n path "
-                 "elements (appended with '|' when the ammo is tagged and no-tag-only is off) / __EMPTY__; ids unique across instances. "
+                 "elements (appended with '|' when the ammo is tagged and no-tag-only is off) / __EMPTY__ (also when auto-tag is on and the URI has no path to take elements from); ids unique across instances. "
                  "gRPC: proto code equals the documented mapping for all 17 defined codes and 500 for anything else."),
         "note": ("1xx statuses are not generated (Go's client consumes them); which errno a failure maps to is not asserted, only "
-                 "non-zero. The gRPC half of the scenario-step clause is asserted by C20 TestGRPCScenario."),
+                 "non-zero. An ammo tag combined (no-tag-only off) with the auto-tag of a path-less URI is not generated: what it should "
+                 "read like is not documented. gRPC scenario steps: tags and codes here (TestGRPCScenarioTags), templating in C20 TestGRPCScenario."),
     },
     "assumptions": ["responses are matched to entries by a unique first path element, so concurrent instances cannot be confused"],
 }
